@@ -35,6 +35,7 @@ func drawRCase(t *rapid.T, o rOpts) rt.Case {
 	case 1:
 		if o.Focus == "C16" || o.Focus == "C15" {
 			c.Cfg.CommitteeFailFirst = 1 << 30 // the committee source stays unavailable (and honours its context)
+			c.Cfg.CommitteePlainErr = rapid.Bool().Draw(t, "committee-plain-err")
 		}
 	}
 	c.Cfg.CommitHonoursCtx = rapid.Bool().Draw(t, "commit-honours-ctx")
@@ -57,13 +58,15 @@ func drawRCase(t *rapid.T, o rOpts) rt.Case {
 			c.Ops = append(c.Ops, rt.Op{K: k})
 		case "plan":
 			c.Ops = append(c.Ops, rt.Op{K: "plan", Kind: rapid.SampledFrom([]string{"propose", "validate", "validate", "commit", "commit", "committee"}).Draw(t, "spi"),
-				Policy: rapid.SampledFrom([]string{"hold", "ctx", "ctx"}).Draw(t, "policy")})
+				Policy: rapid.SampledFrom([]string{"hold", "ctx", "ctx", "slow"}).Draw(t, "policy")})
 		case "trigger": // what the node's own timer can produce: a trigger for its current position, or a stale one (never a future one)
 			c.Ops = append(c.Ops, rt.Op{K: "trigger", DH: rapid.SampledFrom([]int{0, 0, 0, 0, -1}).Draw(t, "dh"), DV: rapid.SampledFrom([]int{0, 0, 0, -1, -2}).Draw(t, "dv")})
 		case "sync":
 			c.Ops = append(c.Ops, rt.Op{K: "sync", DH: rapid.SampledFrom([]int{-2, -1, 0, 0, 1, 1, 2, 3}).Draw(t, "dh")})
 		case "oldsync": // settle, sync below the current height (DH=0: the block just below it), settle: must change nothing
 			c.Ops = append(c.Ops, rt.Op{K: "settle"}, rt.Op{K: "sync", DH: rapid.SampledFrom([]int{0, 0, -1, -2, -3}).Draw(t, "dh")}, rt.Op{K: "settle"}, rt.Op{K: "sleep", N: 0})
+		case "syncbig":
+			c.Ops = append(c.Ops, rt.Op{K: "syncbig", N: rapid.IntRange(0, 4).Draw(t, "gap")})
 		case "burst":
 			c.Ops = append(c.Ops, rt.Op{K: "burst", DH: rapid.SampledFrom([]int{-1, 0, 1, 2}).Draw(t, "dh"), N: rapid.IntRange(2, 6).Draw(t, "n")})
 		case "sleep":
@@ -134,7 +137,7 @@ func checkC14(r *rt.Run) *rViolation {
 		if rec.Op.K == "flood" && !rec.Returned {
 			return &rViolation{"main-loop-blocked", fmt.Sprintf("HandleConsensusMessage stopped being accepted after a burst of %d messages: the main loop is blocked (blocked gates at that time: %v)", rec.Op.N, rec.BlockedAtStart)}
 		}
-		if rec.Op.K != "sync" && rec.Op.K != "burst" {
+		if rec.Op.K != "sync" && rec.Op.K != "burst" && rec.Op.K != "syncbig" {
 			continue
 		}
 		if !rec.Returned {
@@ -496,14 +499,14 @@ func gateOverlap(r *rt.Run, kinds ...string) bool {
 }
 
 func TestC13R(t *testing.T) {
-	o := rOpts{Focus: "C13", MaxOps: 14, Kinds: []string{"round", "round", "round", "round", "plan", "trigger", "trigger", "sync", "sync", "burst", "release", "settle", "sleep", "flood", "elect"}}
+	o := rOpts{Focus: "C13", MaxOps: 14, Kinds: []string{"round", "round", "round", "round", "plan", "trigger", "trigger", "sync", "sync", "burst", "release", "settle", "sleep", "flood", "elect", "syncbig"}}
 	rProperty(t, o, checkC13, func(r *rt.Run) bool {
 		return gateOverlap(r, "sync", "burst", "trigger") || len(r.Case.Cfg.FailCommitAt) > 0
 	}, nil)
 }
 
 func TestC14R(t *testing.T) {
-	o := rOpts{Focus: "C14", MaxOps: 14, Kinds: []string{"round", "round", "plan", "plan", "sync", "sync", "sync", "burst", "burst", "oldsync", "release", "settle", "sleep", "trigger", "flood"}}
+	o := rOpts{Focus: "C14", MaxOps: 14, Kinds: []string{"round", "round", "plan", "plan", "sync", "sync", "sync", "burst", "burst", "oldsync", "release", "settle", "sleep", "trigger", "flood", "syncbig"}}
 	rProperty(t, o, checkC14, func(r *rt.Run) bool {
 		if gateOverlap(r, "sync", "burst") {
 			return true
@@ -568,6 +571,25 @@ func TestC19R(t *testing.T) {
 				ops = append(ops, rt.Op{K: "release"})
 			}
 			ops = append(ops, rt.Op{K: "settle"})
+			c.Ops = ops
+		} else if rapid.Bool().Draw(t, "template2") {
+			// a sync for a block the node already has sits in the hand-over slot behind a busy worker when the trigger of the current
+			// position arrives (the worker will ignore that sync - the trigger must not get lost with it)
+			k := rapid.IntRange(1, 2).Draw(t, "rounds-before2")
+			gate := rapid.SampledFrom([]string{"propose", "validate", "commit"}).Draw(t, "busy-in")
+			if gate == "propose" {
+				c.Cfg.Me = (k * c.Cfg.Rot) % c.Cfg.N // leader of view 0 of height k+1
+			}
+			c.Cfg.FailCommitAt, c.Cfg.AbsentAt = nil, 0
+			var ops []rt.Op
+			for i := 0; i < k; i++ {
+				ops = append(ops, rt.Op{K: "round", Order: "prc"})
+			}
+			ops = append(ops, rt.Op{K: "plan", Kind: gate, Policy: "hold"})
+			if gate != "propose" {
+				ops = append(ops, rt.Op{K: "round", Order: "prc"})
+			}
+			ops = append(ops, rt.Op{K: "settle"}, rt.Op{K: "sync", DH: rapid.SampledFrom([]int{0, 0, -1}).Draw(t, "stale-dh")}, rt.Op{K: "trigger"}, rt.Op{K: "release"}, rt.Op{K: "settle"})
 			c.Ops = ops
 		}
 	})
